@@ -66,12 +66,21 @@ func checkC03(c *Ctx) {
 }
 
 func c03R1(c *Ctx) {
+	if !acceptOrderRule(c, "C03.R1", []string{"type", "session-id", "replay-check", "open", "mark", "mark-after-open", "same-counter", "order"}) {
+		return
+	}
+	c03R1Rest(c)
+}
+
+// acceptOrderRule: the decision table of readPacketLocked. keys selects the obligations reported under
+// rule (C03.R1 takes all; C14.R4 takes those that say what the replay filter is fed with).
+func acceptOrderRule(c *Ctx, rule string, keys []string) bool {
 	P := c.P
 	fn := P.Func("transport", "(*SessionState).readPacketLocked")
 	fWindow := P.Field("transport", "SessionState", "window")
 	if fn == nil || fWindow == nil {
-		c.Undecided("C03.R1", "transport.(*SessionState).readPacketLocked", "function or field not found")
-		return
+		c.Undecided(rule, "transport.(*SessionState).readPacketLocked", "function or field not found")
+		return false
 	}
 	name := FuncName(fn)
 	c.Analysed(name)
@@ -82,7 +91,7 @@ func c03R1(c *Ctx) {
 	fSess := P.Field("transport", "SessionState", "sessionID")
 	fs := newFailSet()
 	succ := 0
-	ok := walkAll(c, "C03.R1", fn, func(p *Path) {
+	ok := walkAll(c, rule, fn, func(p *Path) {
 		last := len(p.Blocks) - 1
 		var checkCall, openCall, markCall *ssa.Call
 		order := []string{}
@@ -184,9 +193,18 @@ func c03R1(c *Ctx) {
 		}
 	})
 	if ok {
-		fs.report(c, "C03.R1", name, []string{"type", "session-id", "replay-check", "open", "mark", "mark-after-open", "same-counter", "order"}, P.Pos(fn.Pos()), fmt.Sprintf("holds on all %d success paths", succ))
-		c.Floor("C03.R1", "success paths of readPacketLocked", succ, 1)
+		fs.report(c, rule, name, keys, P.Pos(fn.Pos()), fmt.Sprintf("holds on all %d success paths", succ))
+		c.Floor(rule, "success paths of readPacketLocked", succ, 1)
 	}
+	return true
+}
+
+func c03R1Rest(c *Ctx) {
+	P := c.P
+	fn := P.Func("transport", "(*SessionState).readPacketLocked")
+	fWindow := P.Field("transport", "SessionState", "window")
+	checkID := hopID("transport", "SlidingWindow", "Check")
+	markID := hopID("transport", "SlidingWindow", "Mark")
 
 	// the replay window has no other user
 	nUse := 0
